@@ -13,6 +13,15 @@ from .exprs import ExprMixin, is_exc
 from .calls import CallMixin
 
 
+def _flatten_and(e):
+    if z3.is_and(e):
+        out = []
+        for ch in e.children():
+            out.extend(_flatten_and(ch))
+        return out
+    return [e]
+
+
 class PendingObl:
     def __init__(self, kind, label, hyps, goal, trace, inductive=False, line=0):
         self.kind = kind
@@ -46,6 +55,7 @@ class Engine(ExprMixin, CallMixin):
         self.trusted = set()
         self.called = set()
         self.inlined = set()
+        self.hyp_labels = {}
         self.f_int2val = z3.Function('int2val', z3.IntSort(), Val)
         self.f_truthy = z3.Function('truthy', Val, z3.BoolSort())
         self.f_callable = z3.Function('is_callable', Val, z3.BoolSort())
@@ -274,7 +284,8 @@ class Engine(ExprMixin, CallMixin):
         sl = tgt.slice
         if sl.lower is None and sl.upper is None and sl.step is None and isinstance(v, SLit) and v.kind == 'list':
             o = self.ev1(tgt.value, st)
-            if isinstance(o, SRef) and o.cls.ncells == len(v.items):
+            if isinstance(o, SRef) and o.cls.ncells is not None and len(v.items) <= o.cls.ncells:
+                # (a shorter display leaves the trailing slots of the cell model untouched: the real list is shorter)
                 s = st.copy()
                 for i, it in enumerate(v.items):
                     self.on_field_access(s, o, str(i), 'write', tgt)
@@ -644,6 +655,9 @@ class Engine(ExprMixin, CallMixin):
         if is_for:
             h = h.assume(z3.And(i >= 0, i <= seq['n']))
         invs = inv_at(h, i, s0)
+        for lab, b in invs:
+            for cj in _flatten_and(b):
+                self.hyp_labels[cj.get_id()] = lab
         h = h.assume(z3.And(*[b for _, b in invs]) if invs else z3.BoolVal(True))
         out = []
         # iteration
@@ -774,6 +788,8 @@ class Engine(ExprMixin, CallMixin):
             pre = con.requires(c0)
             for label, b in pre:
                 st = st.assume(b)
+                for cj in _flatten_and(b):
+                    self.hyp_labels[cj.get_id()] = label
             self.entry_state = st
             self.entry_args = args
             # vacuity: the precondition must be satisfiable
